@@ -11,13 +11,14 @@ from lib import common as C
 
 PROP = "C16"
 PROPS_FILES = ["Props/C16.v", "Props/C16_hist.v"]
-KNOWN_SIG = "C16:spe-search-no-violators-gamma-zero"
 ASSUMPTIONS = [
   "exact arithmetic over Q: every finite double is a rational; the split is compared exactly on dyadic gamma / forget factor (k/64, j/16) so int(gamma*n) is exact; densities, ratio and bandwidths are compared with a 1e-12 relative tolerance (exp, sqrt and division round)",
   "numpy.argsort is an oracle: any permutation under which the kept values are non-decreasing (contract checked in Coq on the permutation NumPy actually returned, logged by the harness)",
   "kernel values are inputs of the density theorems with 0 <= k(x,p) <= alpha = k(p,p) (validity of the kernels is C03); the harness checks that contract in Coq on the rows the real covariance produced",
   "NaN/inf floats are the value None of the model (empty point set -> NaN spread and NaN density); finite observations and points by precondition",
-  "the search variant is modelled from the view's scaled constraint values and scaled thresholds on (the scaling is C12); the searcher restates satisfaction on the raw values, objectives and thresholds",
+  "the search variant is modelled from the view's scaled constraint values and scaled thresholds on (the scaling is C12); the searcher restates satisfaction on the raw values, objectives and thresholds; "
+  "reading of DESIGN 11.5: the membership clause (lower = satisfiers, greater = violators) applies when at least one observation violates a threshold - with no violator the greater set would be empty and have "
+  "no density, so the (repaired) view keeps the constructor's split with gamma = 0.2 on the chosen constraint metric (Props/C16.v, C16_search_no_violator)",
   "histories on a live estimator (Model/ParzenHist.v): the kernel is a parameter of the model and of its theorems; the in-Coq correspondence runs the real estimator class with a RadialCovariance whose radial profile is the rational function 1/(1+r^2) (ParzenHist.rkern; dyadic points and length scales, so only the division and the mean round: 1e-12), the searcher runs the same histories with the real C4 Matern kernel against closed forms",
 ]
 TRUSTED = ["tools/props/C16.py case generator, argsort / covariance-class logging shims and the Q-literal printer",
@@ -668,9 +669,12 @@ def branch(kind, inp, out):
   if kind == "search":
     if out["error"]:
       return "search:error"
+    if not out["greater"]:
+      return "search:no-violators(gamma=0, empty greater set)"     # only a tree without the repair 'fix: SPE search forces ...' gets here
     if out["gamma"] == 0.2:
-      return "search:default-split"
-    return "search:no-violators(gamma=0)" if not out["greater"] else "search:threshold-split"
+      nv = sum(1 for row in out["pf"] if any(not math.isnan(t) and not v < t for v, t in zip(row, out["thr"])))
+      return "search:no-violators(default-split)" if nv == 0 else "search:default-split(too-few-satisfiers)"
+    return "search:threshold-split"
   if kind == "band":
     if not inp["pts"]:
       return "band:empty-set-fallback"
@@ -882,7 +886,8 @@ def oracle_search(inp):
     return fail(kind, f"raises:{type(e).__name__}", inp, repr(e), "an estimator or SPEInsufficientDataError", "no other exception on valid input")
   n = len(inp["pts"])
   txt = ("raw values: an observation satisfies a threshold iff it is strictly better (greater for maximize, smaller for minimize); "
-         "#satisfiers > one-hot dim => lower = satisfiers, greater = violators; ratio finite in (0, 1/gamma]")
+         "#satisfiers > one-hot dim and >= 1 violator => lower = satisfiers, greater = violators, gamma = #violators / n; otherwise the constructor's split "
+         "(max(floor(0.2 n), 3) best values of the chosen metric) with gamma 0.2; in every case finite densities and a ratio in (0, 1/gamma]")
   if out["error"]:
     return None if n < 10 else fail(kind, "insufficient-data error on >= 10 observations", inp, out, None, txt)
   if n < 10:
@@ -903,7 +908,23 @@ def oracle_search(inp):
   oh = one_hot_rows(inp["comps"], inp["pts"])
   lo, gr = sorted(tuple(r) for r in out["lower"]), sorted(tuple(r) for r in out["greater"])
   nsat = sum(sat)
-  if nsat > dim:
+  g = out["gamma"]
+
+  def ratio_clause():
+    """Both densities finite kernel means, gamma in (0, 1), the ratio the documented one and in (0, 1/gamma] - for EVERY estimator the view builds."""
+    ok = all(math.isfinite(v) for v in (out["lpdf"], out["gpdf"], out["ei"])) and 0 < g < 1 and out["gpdf"] >= 0 and 0 < out["ei"] <= (1 / g) * (1 + 1e-12)
+    if not ok:
+      return fail(kind, "densities finite and ratio in (0, 1/gamma]", inp, dict(gamma=g, lpdf=out["lpdf"], gpdf=out["gpdf"], ei=out["ei"], n_lower=len(lo), n_greater=len(gr),
+                                                                                   satisfiers=nsat, observations=n, one_hot_dim=dim),
+                  "finite densities over two non-empty sets, 0 < gamma < 1 and a ratio in (0, 1/gamma]", txt)
+    # the ratio the search variant scores with is the documented one for the gamma and the two densities of THIS estimator
+    er = 1.0 / (g + (1.0 - g) * out["gpdf"] / out["lpdf"])
+    if abs(out["ei"] - er) > 1e-10 * max(abs(er), 1e-300):
+      return fail(kind, "ratio equals 1/(gamma + (1-gamma) greater/lower) for the gamma of the search split", inp, out["ei"], er, txt)
+    return None
+
+  if nsat > dim and nsat < n:
+    # membership clause: more satisfiers than dimensions and at least one violator
     e_lo = sorted(tuple(r) for r, s in zip(oh, sat) if s)
     e_gr = sorted(tuple(r) for r, s in zip(oh, sat) if not s)
     if lo != e_lo or gr != e_gr:
@@ -911,24 +932,29 @@ def oracle_search(inp):
     eg = (n - nsat) / n
     if abs(out["gamma"] - eg) > 1e-12:
       return fail(kind, "gamma is the fraction of violators", inp, out["gamma"], eg, txt)
-  else:
-    if len(lo) != max(math.floor(Fraction(0.2) * n), 3) or sorted(lo + gr) != sorted(tuple(r) for r in oh):
-      return fail(kind, "default split kept when too few observations satisfy the thresholds", inp, dict(lower=len(lo), greater=len(gr)), None, txt)
-  g = out["gamma"]
-  ok = all(math.isfinite(v) for v in (out["lpdf"], out["gpdf"], out["ei"])) and 0 < g < 1 and out["gpdf"] >= 0 and 0 < out["ei"] <= (1 / g) * (1 + 1e-12)
-  if not ok:
-    if nsat == n and nsat > dim and g == 0 and not gr:
-      f = fail(kind, "x", inp, dict(gamma=g, lpdf=out["lpdf"], gpdf=out["gpdf"], ei=out["ei"], n_lower=len(lo), n_greater=len(gr)),
-               "finite densities and a ratio in (0, 1/gamma]", txt)
-      f["signature"] = KNOWN_SIG
-      f["what"] = ("search: no observation violates a threshold and satisfiers > one-hot dim: gamma = 0, empty greater set, NaN greater density "
-                   "and NaN ratio (the endpoint's optimiser wrapper then raises AssertionError)")
-      return f
-    return fail(kind, "densities finite and ratio in (0, 1/gamma]", inp, dict(gamma=g, lpdf=out["lpdf"], gpdf=out["gpdf"], ei=out["ei"]), None, txt)
-  # the ratio the search variant scores with is the documented one for the gamma and the two densities of THIS estimator
-  er = 1.0 / (g + (1.0 - g) * out["gpdf"] / out["lpdf"])
-  if abs(out["ei"] - er) > 1e-10 * max(abs(er), 1e-300):
-    return fail(kind, "ratio equals 1/(gamma + (1-gamma) greater/lower) for the gamma of the search split", inp, out["ei"], er, txt)
+    return ratio_clause()
+  # no violator at all (a literal threshold split would leave an empty greater set, which has no density: reading of DESIGN 11.5) or too few
+  # satisfiers: the estimator is the constructor's - the ratio clause first (it is what the property states for every estimator), then the split
+  r = ratio_clause()
+  if r:
+    return r
+  s_exp = max(math.floor(Fraction(0.2) * n), 3)
+  if len(lo) != s_exp or sorted(lo + gr) != sorted(tuple(r) for r in oh):
+    return fail(kind, "default split kept when too few observations satisfy the thresholds or none violates", inp, dict(lower=len(lo), greater=len(gr)),
+                dict(lower=s_exp, greater=n - s_exp), txt)
+  if abs(g - 0.2) > 1e-15:
+    return fail(kind, "default gamma 0.2 kept with the default split", inp, g, 0.2, txt)
+  # ... on the chosen constraint metric: every lower observation is at least as good (in the sense of the objective) as every greater one
+  m = inp["metric"]
+  key = [(-row[m] if inp["objectives"][m] == "maximize" else row[m]) for row in inp["values"]]
+  by_row = {}
+  for r_, k_ in zip(oh, key):
+    by_row.setdefault(tuple(r_), set()).add(k_)
+  if all(len(v) == 1 for v in by_row.values()):      # the value of a stored row is unambiguous
+    worst_lo, best_gr = max(next(iter(by_row[r_])) for r_ in lo), min(next(iter(by_row[r_])) for r_ in gr)
+    if worst_lo > best_gr + 1e-9 * max(1.0, abs(best_gr)):
+      return fail(kind, "default split: the lower set holds the best values of the chosen constraint metric", inp, dict(worst_lower=worst_lo, best_greater=best_gr),
+                  "max over lower <= min over greater (minimisation sense)", txt)
   return None
 
 
@@ -953,7 +979,10 @@ def oracle_hist(inp):
   gamma = init["gamma"] if inp.get("start") == "search" else inp["gamma"]
   hyp = {True: list(init["hl"] if inp.get("start") == "search" else inp["hyper_l"]), False: list(init["hg"] if inp.get("start") == "search" else inp["hyper_g"])}
   if not (0 < gamma < 1) or not base[True] or not base[False]:
-    return None                                  # the search view's gamma = 0 / empty greater set is the recorded finding, not a history matter
+    if inp.get("start") == "search":             # every estimator the search view builds has gamma in (0, 1) and two non-empty sets
+      return fail(kind, "the search view's estimator has gamma in (0, 1) and two non-empty sets", inp, dict(gamma=gamma, n_lower=len(base[True]), n_greater=len(base[False])),
+                  "0 < gamma < 1, both sets non-empty", txt)
+    return None
   def ktol(alpha, ls, S, x):
     M = max(sum((a / l) ** 2 + (b / l) ** 2 for a, b, l in zip(x, q, ls)) for q in S)
     return alpha * (1e-14 * M + 1e-14)
@@ -1069,6 +1098,21 @@ WITNESS = dict(
   objectives=["maximize", "minimize"], thresholds=[-100.0, 100.0], metric=0, x=[1.0, 0.0, 0.0, 2.0, 3.0], mode="none-violate")
 
 
+def no_violator_cases():
+  """Deterministic requests on which no observation violates any threshold and the satisfiers outnumber the one-hot dimension: one and two
+  constraint metrics, either chosen metric, a NaN threshold, ties in the chosen metric, 10 observations (the estimator's minimum) and more."""
+  out = [WITNESS, dict(WITNESS, metric=1)]
+  out.append(dict(WITNESS, values=[[v[0]] for v in WITNESS["values"]], objectives=["minimize"], thresholds=[50.0], metric=0))
+  out.append(dict(WITNESS, thresholds=[None, 100.0], metric=0))
+  out.append(dict(WITNESS, pts=WITNESS["pts"][:10], values=[[float(i % 3), float(-i)] for i in range(10)], metric=0))
+  out.append(dict(comps=[{"var_type": "double", "elements": [0.0, 6.0]}], pts=[[(i * 7 % 25) / 4.0] for i in range(25)],
+                  values=[[float(i * 11 % 25)] for i in range(25)], objectives=["maximize"], thresholds=[-1.0], metric=0, x=[2.5], mode="none-violate"))
+  return out
+
+
+NO_VIOLATOR_CASES = no_violator_cases()
+
+
 def widen(rng, kind, inp):
   """Real floats of many magnitudes / larger sizes for the searcher."""
   if kind == "split":
@@ -1168,18 +1212,16 @@ def search(ctx, hints, broken):
   new = 0
   def note(r):
     nonlocal new
-    if r and r["signature"] == KNOWN_SIG and any(f["signature"] == KNOWN_SIG for f in fails):
-      return                                     # the recorded finding is reported once (on the fixed witness)
     if r:
       fails.append(r)
-      if r["signature"] != KNOWN_SIG:
-        new += 1
+      new += 1
   for h in hints:
     if "kind" in h and "input" in h:
       n += 1
       note(oracle(h["kind"], h["input"]))
-  n += 1
-  note(oracle("search", WITNESS))               # the recorded finding, every run
+  for w in NO_VIOLATOR_CASES:                   # no observation violates a threshold (the defect repaired by 'fix: SPE search forces ...'), every run
+    n += 1
+    note(oracle("search", w))
   budget = ctx.n(4000, 60000) * (3 if broken else 1)
   rng = ctx.rng
   for _ in range(budget):
@@ -1205,8 +1247,9 @@ def replay(ctx, payload):
 LEVEL_TEXT = ("Coq theorems on an executable model of the estimator's constructor (sizes, error condition, rearrangement and value separation for "
               "every sorting permutation), of the densities / ratio / lies over Q for all kernel values in [0, alpha] (non-negativity, floor, formula, "
               "range (0, 1/gamma], monotonicity under lies), of the bandwidth selection with its fallback (always finite positive) and of the search "
-              "variant's threshold split; the search variant's ratio clause is proved under 'some observation violates' and REFUTED without it "
-              "(known finding); over histories on one live object (lies told / withdrawn / replaced / stashed / recovered, kernels replaced or "
+              "variant's split (threshold split = satisfiers / violators exactly when some observation violates and the satisfiers outnumber the dimension; with no "
+              "violator the constructor's split with gamma 0.2 - C16_search_no_violator); every estimator the search view builds satisfies the whole ratio clause "
+              "(C16_search_ratio_clause, no hypothesis about violators since the repair of the view); over histories on one live object (lies told / withdrawn / replaced / stashed / recovered, kernels replaced or "
               "re-tuned in place, gamma and sets assigned directly, evaluations in between) every evaluation is the fresh estimator's answer for "
               "the content the mutations leave, evaluations read only, lies raise the reported density, the ratio clause holds at every moment "
               "(Props/C16_hist.v, for every kernel function). The model is tied to the code by differential runs evaluated inside Coq: exact for the split (with the logged argsort "
